@@ -19,6 +19,8 @@ E1_ASSUMPTIONS = [
 
 def _work(job):
     spec, opts = job
+    import gc
+    gc.disable()
     from . import e1
     s = dict(spec)
     if opts:
@@ -32,6 +34,8 @@ def _work(job):
 
 def _replay(job):
     spec, finding = job
+    import gc
+    gc.disable()       # pyboolector objects are sensitive to destruction order; the child exits with os._exit
     from . import e1
     try:
         ok, info = e1.replay_finding(spec, finding)
@@ -109,7 +113,7 @@ def run_specs(chk, specs, kinds, opts=None, sig_fn=None, nproc=None, chunk=None,
             direct.append((i, f))
         else:
             rjobs.append((specs[i], {k: v for k, v in f.items() if k not in ("tb",)}))
-    rres = parmap(_replay, rjobs, nproc=nproc) if rjobs else []
+    rres = parmap(_replay, rjobs, nproc=nproc, chunk=1) if rjobs else []
     ri = 0
     for i, f in to_replay:
         spec = specs[i]
@@ -129,6 +133,12 @@ def run_specs(chk, specs, kinds, opts=None, sig_fn=None, nproc=None, chunk=None,
             sig.update(sig_fn(spec, f) or {})
         if status == "reproduced":
             chk.violation(sig, "%s [%s] %s :: %s :: %s" % (f["kind"], spec.get("tag"), spec.get("desc"), f["what"], info),
+                          {"engine": "E1", "spec": spec, "finding": {k: v for k, v in f.items() if k != "tb"}})
+        elif status == "not_reproduced" and f["kind"] in ("returned_values_violate", "out_of_type", "nonrandom_changed"):
+            # the concrete values were returned by the real library (real Boolector) in the observed run; a fresh run draws
+            # other random values and need not hit the violating ones again
+            chk.violation(sig, "%s [%s] %s :: %s :: observed on the real run (values returned by the real solver: %s); "
+                          "not drawn again in 20 fresh draws" % (f["kind"], spec.get("tag"), spec.get("desc"), f["what"], f.get("returned")),
                           {"engine": "E1", "spec": spec, "finding": {k: v for k, v in f.items() if k != "tb"}})
         elif status == "not_reproduced":
             chk.harness_error("finding did not reproduce through the public API: %s/%s %s (%s) -> %s" % (
